@@ -57,7 +57,7 @@ func menu(i int) []*st {
 	}
 }
 
-const exactIndent, exactIndentTab = "\x00EXACT\x00", "\x00EXACTTAB\x00"
+const exactIndent, exactIndentTab, rawCopy = "\x00EXACT\x00", "\x00EXACTTAB\x00", "\x00RAWCOPY\x00"
 
 type token struct {
 	text string
@@ -152,9 +152,10 @@ func render(toks []token, seps []string, exp []expNode) string {
 		}
 		b.WriteString(s)
 	}
+	lastRaw := ""
 	for i, t := range toks {
 		if i > 0 {
-			write(seps[i])
+			write(strings.ReplaceAll(seps[i], rawCopy, lastRaw))
 		}
 		if t.node >= 0 {
 			exp[t.node].line, exp[t.node].col = line, col
@@ -176,6 +177,7 @@ func render(toks []token, seps []string, exp []expNode) string {
 				panic("c10: the raw argument is not settled by the reference: " + raw)
 			}
 			write("\"" + raw + "\"")
+			lastRaw = raw
 			continue
 		}
 		write(t.text)
@@ -319,8 +321,8 @@ func run(c *engine.Ctx) {
 			tvs := trivia
 			if toks[b-1].raw != "" {
 				// a comment that repeats the raw text of the string before it
-				plain := strings.NewReplacer(exactIndent, "     ", exactIndentTab, "\t ").Replace(toks[b-1].raw)
-				tvs = append(append([]string{}, trivia...), " /* "+plain+" */ ", "/*\""+plain+"\"*/")
+				// (rawCopy: render puts the raw text exactly as it was written there)
+				tvs = append(append([]string{}, trivia...), " /* "+rawCopy+" */ ", "/*\""+rawCopy+"\"*/")
 			}
 			for vi, tv := range tvs {
 				if tv == "" && !(toks[b].glue || toks[b-1].text == "{" || toks[b-1].text == "}" || toks[b-1].text == ";" || toks[b-1].glue && toks[b-1].text != toks[b-1].text) {
